@@ -33,3 +33,35 @@ Proof.
   apply Tactics.bind_guard_ok in H as [G _]. apply andb_true_iff in G. exact G.
 Qed.
 Print Assumptions C09_okp_pairing.
+
+(* ---- decoding a COSE key yields precisely that key (coordinates / modulus of any length, leading zeros kept) ---- *)
+From PW Require Import Spec.CoseSpec Proofs.CoseProofs.
+Theorem C09_decode_ec2 : forall alg crv x y,
+  small alg -> small crv -> alg <> 0 -> crv <> 0 -> blen_ok x -> blen_ok y ->
+  decode_credential_public_key (cbor_enc (cose_ec2 alg crv x y)) = Ok (DEC2 (CInt alg) (CInt crv) (CBytes x) (CBytes y)).
+Proof. exact decode_ec2. Qed.
+Print Assumptions C09_decode_ec2.
+Theorem C09_decode_okp : forall alg crv x, small alg -> small crv -> alg <> 0 -> crv <> 0 -> blen_ok x ->
+  decode_credential_public_key (cbor_enc (cose_okp alg crv x)) = Ok (DOKP (CInt alg) (CInt crv) (CBytes x)).
+Proof. exact decode_okp. Qed.
+Print Assumptions C09_decode_okp.
+Theorem C09_decode_rsa : forall alg n e, small alg -> alg <> 0 -> blen_ok n -> blen_ok e ->
+  decode_credential_public_key (cbor_enc (cose_rsa alg n e)) = Ok (DRSA (CInt alg) (CBytes n) (CBytes e)).
+Proof. exact decode_rsa. Qed.
+Print Assumptions C09_decode_rsa.
+Theorem C09_decode_raw_p256 : forall x y, len x = 32 -> len y = 32 ->
+  decode_credential_public_key (raw_p256 x y) = Ok (DEC2 (CInt (-7)) (CInt 1) (CBytes x) (CBytes y)).
+Proof. exact decode_raw_p256. Qed.
+Print Assumptions C09_decode_raw_p256.
+Theorem C09_to_crypto_ec2 : forall O alg c x y pk, to_crypto O (DEC2 (CInt alg) (CInt c) (CBytes x) (CBytes y)) = Ok pk ->
+  exists crv, pk = PkEC crv (be_int x) (be_int y) /\ ((c = 1 /\ crv = 1) \/ (c = 2 /\ crv = 2) \/ (c = 3 /\ crv = 3)) /\ o_key_ok O pk = true.
+Proof. exact to_crypto_ec2. Qed.
+Print Assumptions C09_to_crypto_ec2.
+Theorem C09_to_crypto_rsa : forall O alg n e pk, to_crypto O (DRSA (CInt alg) (CBytes n) (CBytes e)) = Ok pk ->
+  pk = PkRSA (be_int n) (be_int e) /\ o_key_ok O pk = true.
+Proof. exact to_crypto_rsa. Qed.
+Print Assumptions C09_to_crypto_rsa.
+Theorem C09_to_crypto_okp : forall O alg c x pk, to_crypto O (DOKP (CInt alg) (CInt c) (CBytes x)) = Ok pk ->
+  pk = PkEd x /\ alg = -8 /\ c = 6 /\ o_key_ok O pk = true.
+Proof. exact to_crypto_okp. Qed.
+Print Assumptions C09_to_crypto_okp.
